@@ -14,7 +14,7 @@ open LinVerif.VersionSet LinVerif.TableCache
 that stores the file counter back needs `Safe`: the number it read is still the counter) -/
 theorem frame_run {cfg : Cfg} {acts : List Act} {s s' : St} (hr : cfg.recheck = true) (hcl : cfg.cloneLocked = true)
     (hal : cfg.allocLocked = true) (hfe : cfg.findErrReleases = false) (hpf : cfg.pendFirst = true)
-    (hcc : cfg.closeCAS = true) (hga : cfg.getReaderAtomic = true) (hs : Safe s) (h : run cfg s acts = some s') :
+    (hcc : cfg.closeCAS = true) (hga : cfg.getReaderAtomic = true) (hlf : cfg.listFirst = true) (hs : Safe s) (h : run cfg s acts = some s') :
     Frame s s' := by
   induction acts generalizing s with
   | nil => simp only [run] at h; cases h; exact Frame.refl _
@@ -23,7 +23,7 @@ theorem frame_run {cfg : Cfg} {acts : List Act} {s s' : St} (hr : cfg.recheck = 
     split at h
     next s1 hs1 =>
       exact Frame.trans (frame_step hpf (fun k hk hp => (hs.jobs k hk).nfread hp) hs1)
-        (ih (safe_step hr hcl hal hfe hpf hcc hga hs hs1) h)
+        (ih (safe_step hr hcl hal hfe hpf hcc hga hlf hs hs1) h)
     next => cases h
 
 /-- the content of version data `v` for key `k` given the table contents -/
